@@ -199,6 +199,13 @@ namespace {
              "cb");
       e->eval(PRELUDE);
     }
+    // top-level variables of the calling thread that block-shaped trees refer to
+    void declare_top_level() {
+      try {
+        e->eval("var tl_seed = 40; var tl_text = \"top\";");
+      } catch (...) {
+      }
+    }
   };
 
   class C08 : public World {
@@ -223,7 +230,14 @@ namespace {
         std::string body, ret;
         g.piece(body, ret);
         g.piece(body, ret);
-        trees.push(J("fun(a) { " + body + "return " + ret + " }(" + std::to_string(plan.range(1, 2)) + ")"));
+        if (plan.chance(350)) {
+          // a block evaluated directly in the caller's top-level scope, whose only declarations are
+          // reference bindings: nothing it declares may survive it (it is evaluated again right there)
+          trees.push(J("{ var &rr" + std::to_string(i) + " = tl_seed; auto &rs" + std::to_string(i) + " = tl_text; ts(rs" + std::to_string(i) + "); t(rr" + std::to_string(i) + "); rr"
+                       + std::to_string(i) + " + " + g.lit_int() + " }"));
+        } else {
+          trees.push(J("fun(a) { " + body + "return " + ret + " }(" + std::to_string(plan.range(1, 2)) + ")"));
+        }
       }
       const int T = int(plan.range(1, 3));
       p["actors"] = J(T);
@@ -295,6 +309,7 @@ namespace {
             continue;
           }
           try {
+            h.declare_top_level();
             auto ast = h.e->parse(trees[i].str());
             co.out = "=" + show(h.e->eval(*ast), h.e.get());
           } catch (...) {
@@ -344,6 +359,7 @@ namespace {
       }
       std::vector<CallOut> got(ops.size());
       auto body = [&](int a) {
+        h.declare_top_level();
         for (size_t oi : mine[size_t(a)]) {
           const J &op = ops[oi];
           OpScope scope;
